@@ -73,6 +73,14 @@ StepOK(g, ln, t) ==
       r == Apply(g, ln, pw, t)
   IN Norm(r.g) = t /\ (r.ok <=> ln.err = "")
 
+\* C10: the heavy clause is evaluated when the board changed (or after a jump); in between the
+\* published evaluation must stay what it was
+Reeval(ln) == [i \in 0..(ln.state.n - 1) |-> ln.reeval[i + 1]]
+C10Bad(g, t, ln, jump) ==
+  IF "C10" \notin Props THEN {}
+  ELSE (IF (jump \/ BoardChanged(g, t)) /\ Len(t.board) >= 3 THEN C10_fresh(t, Reeval(ln)) ELSE {})
+       \cup (IF jump THEN {} ELSE N("C10.stable", C10_stable(g, t)))
+       \cup (IF t.ev = "GameClosed" THEN {"C10.showdown:" \o nm : nm \in EngineC02(t)} ELSE {})
 Call(ln) == [op |-> ln.op, seat |-> ln.seat, x |-> ln.x, ok |-> ln.err = ""]
 Bump(c, S) == [k \in (DOMAIN c) \cup S |-> (IF k \in DOMAIN c THEN c[k] ELSE 0) + (IF k \in S THEN 1 ELSE 0)]
 AddViol(v, line, names) == IF Cardinality(v) >= MaxViol THEN v ELSE v \cup {<<line, nm>> : nm \in names}
@@ -89,14 +97,17 @@ Step ==
          o == Call(ln)
      IN IF ln.kind = "reset"
         THEN /\ gs' = t /\ h' = HistJump(t)
-             /\ viol' = AddViol(viol, l + 1, FailedState(t, HistJump(t), Props))
+             /\ viol' = AddViol(viol, l + 1, FailedState(t, HistJump(t), Props) \cup C10Bad(t, t, ln, TRUE))
              /\ drift' = drift /\ cnt' = Bump(cnt, {"runs"})
         ELSE LET h2 == HistNext(h, gs, t, o)
                  bad == FailedState(t, h2, Props) \cup FailedStep(gs, t, o, h2, Props)
                         \cup (IF "C14" \in Props /\ ln.op = "Start" THEN N("C14.shuffle", C14_shuffle(gs, o, ln.shuffled)) ELSE {})
+                        \cup C10Bad(gs, t, ln, FALSE)
              IN /\ viol' = AddViol(viol, l + 1, bad)
-                /\ drift' = IF StepOK(gs, ln, t) \/ Cardinality(drift) >= MaxViol THEN drift ELSE drift \cup {l + 1}
-                /\ cnt' = Bump(cnt, Exercised(gs, t, o, h2) \cup {"lines." \o ln.kind})
+                /\ drift' = IF (StepOK(gs, ln, t) /\ ("C10" \notin Props \/ ~BoardChanged(gs, t) \/ C10_scoreModel(t)))
+                               \/ Cardinality(drift) >= MaxViol THEN drift ELSE drift \cup {l + 1}
+                /\ cnt' = Bump(cnt, Exercised(gs, t, o, h2) \cup {"lines." \o ln.kind}
+                                    \cup (IF BoardChanged(gs, t) /\ Len(t.board) >= 3 THEN {"C10.street" \o ToString(Len(t.board)) \o ".req" \o ToString(t.meta.reqHole) \o "." \o t.meta.ranking} ELSE {}))
                 /\ IF ln.kind = "probe" THEN gs' = gs /\ h' = h ELSE gs' = t /\ h' = h2
   /\ (l + 1 = Len(Trace)) =>
         PrintT(<<"RESULT", ToJson([lines |-> Len(Trace), viol |-> viol', drift |-> drift', cnt |-> cnt'])>>)
